@@ -269,6 +269,8 @@ def check_case(case) -> Verdict:
     lo_v = max(vmin, 1e-3)
     if vmin > 1e-3:
         base += "/vMin>0"
+    rel = "cs2>cb2" if mu < nu else "cs2<cb2" if mu > nu else "cs2=cb2"
+    v.label(rel)
     v.info.update(vMin=vmin, vJ=vJ)
     try:
         res = hyd.findvwLTE()
@@ -342,6 +344,18 @@ def check_case(case) -> Verdict:
                       kappa_v=(tolS / dSdv) / max(w, 1e-300) if dSdv > 0 else None)
         root_ok = sa * sb <= 0 or abs(s0) * scale <= tolS
         if not root_ok:
+            cls += "/" + rel
+            if solver == "template":
+                # is the "root" a jump of the template solver's own shooting function (solveAlpha switching roots)?
+                try:
+                    def shoot(x):
+                        return hyd._shooting(x, hyd.getVp(min(hyd.cb, x), hyd.solveAlpha(x)))
+
+                    fa, fb = shoot(vl * (1 - 1e-4)), shoot(vl * (1 + 1e-4))
+                    if fa * fb < 0 and min(abs(fa), abs(fb)) > 1e-3:
+                        cls += "/jump"
+                except Exception:  # noqa: BLE001  (labelling aid only)
+                    pass
             v.fail("lte-root", cls,
                    f"findvwLTE = {vl:.10g} ({branch}) but the Tn-matched flow does not conserve entropy there: "
                    f"S/(T+ gamma+) = {sa:.3e} .. {s0:.3e} .. {sb:.3e} on the tolerance window +-{w:.1e} "
@@ -425,7 +439,7 @@ def check_case(case) -> Verdict:
         if abs(smin) < MARGIN_S and all(s > -MARGIN_S for s, _, _ in sref) and min(abs(s) for s in s_end + [smin]) < MARGIN_S:
             v.label("margin:S-small-in-window")
             return v.discarded("margin:S-small-in-window")
-        v.fail("lte-runaway", f"{base}/{kmin}",
+        v.fail("lte-runaway", f"{base}/{kmin}/{rel}",
                f"findvwLTE = 1 (runaway) but the entropy mismatch has the stopping sign inside the window: "
                f"S/(T+ gamma+) = {smin:.3e} at vw = {xmin:.6g} ({kmin}); window [{a:.6g}, {b:.6g}], "
                f"S at the ends {s_end}; alpha_n = {alN:.6g}, Psi_n = {psiN:.6g}",
